@@ -172,7 +172,7 @@ def run_execution(sess, xid, kind, params, gname, calls, plan, thread_log, fine=
                     fn = {"win": "predict_win", "draw": "predict_draw", "rank": "predict_rank"}[c["op"]]
                     out = ("ok", getattr(m, fn)(teams_all[th]), "")
             except Exception as exc:  # noqa: BLE001
-                out = ("raise", None, type(exc).__name__)
+                out = ("raise", None, "TypeError" if isinstance(exc, TypeError) else "ValueError" if isinstance(exc, ValueError) else type(exc).__name__)
             results[th] = out
             sch.record(th, "end")
         except BaseException as exc:  # noqa: BLE001
